@@ -229,6 +229,51 @@ impl<K: Hash + Eq + Clone, V> HashMap<K, V> {
         }
     }
 
+    pub fn with_capacity(_capacity: usize) -> HashMap<K, V> {
+        HashMap::new()
+    }
+
+    pub fn clear(&mut self) {
+        self.slots.clear();
+        self.index.clear();
+    }
+
+    pub fn get_mut<Q: ?Sized>(&mut self, k: &Q) -> Option<&mut V>
+    where
+        K: Borrow<Q>,
+        Q: Hash + Eq,
+    {
+        match self.index.get(k) {
+            Some(&i) => self.slots[i].as_mut().map(|s| &mut s.1),
+            None => None,
+        }
+    }
+
+    /// Visits the entries in driver-chosen order, like every other iteration.
+    #[track_caller]
+    pub fn retain<F: FnMut(&K, &mut V) -> bool>(&mut self, mut f: F) {
+        let live_ix: Vec<usize> = (0..self.slots.len())
+            .filter(|i| self.slots[*i].is_some())
+            .collect();
+        let prios: Vec<u64> = live_ix
+            .iter()
+            .map(|i| self.slots[*i].as_ref().unwrap().2)
+            .collect();
+        let order = visit_order(Location::caller(), &prios);
+        for o in order {
+            let i = live_ix[o];
+            let keep = {
+                let slot = self.slots[i].as_mut().unwrap();
+                f(&slot.0, &mut slot.1)
+            };
+            if !keep {
+                let (k, _, _) = self.slots[i].take().unwrap();
+                self.index.remove(&k);
+            }
+        }
+        self.compact();
+    }
+
     fn compact(&mut self) {
         if self.slots.len() >= 8 && self.index.len() * 2 < self.slots.len() {
             let old = std::mem::replace(&mut self.slots, Vec::new());
@@ -317,6 +362,28 @@ impl<'a, K: Hash + Eq + Clone, V> IntoIterator for &'a HashMap<K, V> {
     }
 }
 
+impl<K: Hash + Eq + Clone, V> Default for HashMap<K, V> {
+    fn default() -> HashMap<K, V> {
+        HashMap::new()
+    }
+}
+
+impl<K: Hash + Eq + Clone, V> Extend<(K, V)> for HashMap<K, V> {
+    fn extend<I: IntoIterator<Item = (K, V)>>(&mut self, iter: I) {
+        for (k, v) in iter {
+            self.insert(k, v);
+        }
+    }
+}
+
+impl<K: Hash + Eq + Clone, V> std::iter::FromIterator<(K, V)> for HashMap<K, V> {
+    fn from_iter<I: IntoIterator<Item = (K, V)>>(iter: I) -> HashMap<K, V> {
+        let mut map = HashMap::new();
+        map.extend(iter);
+        map
+    }
+}
+
 impl<K: fmt::Debug, V: fmt::Debug> fmt::Debug for HashMap<K, V> {
     fn fmt(&self, f: &mut fmt::Formatter<'_>) -> fmt::Result {
         // Insertion order; never consults the driver.
@@ -397,6 +464,30 @@ impl<T: Hash + Eq + Clone> HashSet<T> {
         self.map.keys()
     }
 
+    pub fn with_capacity(_capacity: usize) -> HashSet<T> {
+        HashSet::new()
+    }
+
+    pub fn clear(&mut self) {
+        self.map.clear();
+    }
+
+    pub fn get<Q: ?Sized>(&self, t: &Q) -> Option<&T>
+    where
+        T: Borrow<Q>,
+        Q: Hash + Eq,
+    {
+        match self.map.index.get(t) {
+            Some(&i) => self.map.slots[i].as_ref().map(|s| &s.0),
+            None => None,
+        }
+    }
+
+    #[track_caller]
+    pub fn retain<F: FnMut(&T) -> bool>(&mut self, mut f: F) {
+        self.map.retain(|k, _| f(k));
+    }
+
     #[track_caller]
     pub fn drain(&mut self) -> std::vec::IntoIter<T> {
         let map = std::mem::replace(&mut self.map, HashMap::new());
@@ -430,6 +521,28 @@ impl<'a, T: Hash + Eq + Clone> IntoIterator for &'a HashSet<T> {
     #[track_caller]
     fn into_iter(self) -> Self::IntoIter {
         self.iter()
+    }
+}
+
+impl<T: Hash + Eq + Clone> Default for HashSet<T> {
+    fn default() -> HashSet<T> {
+        HashSet::new()
+    }
+}
+
+impl<T: Hash + Eq + Clone> Extend<T> for HashSet<T> {
+    fn extend<I: IntoIterator<Item = T>>(&mut self, iter: I) {
+        for t in iter {
+            self.insert(t);
+        }
+    }
+}
+
+impl<T: Hash + Eq + Clone> std::iter::FromIterator<T> for HashSet<T> {
+    fn from_iter<I: IntoIterator<Item = T>>(iter: I) -> HashSet<T> {
+        let mut set = HashSet::new();
+        set.extend(iter);
+        set
     }
 }
 
